@@ -153,7 +153,16 @@ def parse_match(text):
             return atom.atom(orig_text)
         except errors.MalformedAtom as e:
             if "*" not in text:
-                raise ParseError(str(e)) from e
+                if "*" not in orig_text.split("::", 1)[0]:
+                    raise ParseError(str(e)) from e
+                # globbed slot/subslot on an otherwise plain atom: the slot and repo
+                # restrictions were collected above, the rest must be a valid atom
+                try:
+                    return packages.AndRestriction(
+                        *restrictions, *atom.atom(text).restrictions
+                    )
+                except errors.MalformedAtom:
+                    raise ParseError(str(e)) from e
             # support globbed targets with version restrictions
             return packages.AndRestriction(
                 *restrictions, *parse_globbed_version(text, orig_text)
